@@ -155,6 +155,15 @@ func allStrings(alphabet []rune, n int) []string {
 	return out
 }
 
+// c08errS: the error kind as an s-expression; an unknown wording becomes the wildcard (? text)
+func c08errS(err error) string {
+	k := c08errKind(err)
+	if strings.HasPrefix(k, "other:") {
+		return tag("?", atom(k[6:]))
+	}
+	return atom(k)
+}
+
 func c08errKind(err error) string {
 	m := err.Error()
 	switch {
